@@ -29,6 +29,7 @@ package prometheus
 // restarts the period at tNow. Counter.Add panics for negative values, hence the precondition.
 //@ func (*tunnelTimeMetrics).reportTunnelTime
 //@   props C17 C18
+//@   params c ipKey client tNow
 //@   holds c.mu
 //@   requires validTT(c) && client != nil
 //@   requires tNow >= client.startTime
@@ -38,6 +39,7 @@ package prometheus
 
 //@ func (*tunnelTimeMetrics).startConnection
 //@   props C17 C18 C19
+//@   params c ipKey
 //@   atomic
 //@   requires validTT(c)
 //@   assume-at-lock has(c.activeClients, ipKey) ==> c.activeClients[ipKey].connCount < 4611686018427387904
@@ -48,6 +50,7 @@ package prometheus
 
 //@ func (*tunnelTimeMetrics).stopConnection
 //@   props C17 C18 C19
+//@   params c ipKey
 //@   atomic
 //@   requires validTT(c)
 //@   ensures[C17,closes-one] atlock(has(c.activeClients, ipKey)) && atlock(c.activeClients[ipKey].connCount) > 1 ==> has(c.activeClients, ipKey) && c.activeClients[ipKey].connCount == atlock(c.activeClients[ipKey].connCount) - 1
@@ -57,6 +60,7 @@ package prometheus
 
 //@ func (*tunnelTimeMetrics).Collect
 //@   props C17 C18 C19
+//@   params c ch
 //@   atomic
 //@   requires validTT(c)
 //@   loop 1 invariant c.activeClients == atlock(c.activeClients) && heldw(c.mu) \
@@ -69,6 +73,7 @@ package prometheus
 
 //@ func toIPKey
 //@   props C17 C18
+//@   params addr accessKey
 //@   requires addr != nil
 //@   ensures result.1 == nil ==> result.0 != nil
 //@   ensures[C17,key-is-the-canonical-text-form-of-the-address] result.1 == nil ==> result.0.accessKey == accessKey \
@@ -93,6 +98,7 @@ package prometheus
 
 //@ func addIfNonZero
 //@   props C15 C16 C18
+//@   params value counterVec lvs
 //@   requires counterVec != nil
 //@   trace[C15,adds-only-positive] never prometheus.Counter.Add when value <= 0
 //@   trace[C15,adds-once] exactly 1 prometheus.Counter.Add when value > 0
@@ -100,6 +106,7 @@ package prometheus
 // byte counts go to the right direction label, per key and per location
 //@ func (*proxyCollector).addClientTarget
 //@   props C15 C16 C18
+//@   params c clientProxyBytes proxyTargetBytes accessKey clientInfo
 //@   requires validPC(c)
 //@   trace[C15,four-series] exactly 4 prometheus.addIfNonZero
 //@   trace[C15,client-to-proxy-per-key] holds evnth("prometheus.addIfNonZero", 0, "arg", 0) == clientProxyBytes && evnth("prometheus.addIfNonZero", 0, "arg", 1) == c.dataBytesPerKey && evnth("prometheus.addIfNonZero", 0, "arg", 2)[0] == "c>p" && evnth("prometheus.addIfNonZero", 0, "arg", 2)[1] == accessKey
@@ -108,6 +115,7 @@ package prometheus
 //@   trace[C15,proxy-to-target-per-location] holds evnth("prometheus.addIfNonZero", 3, "arg", 0) == proxyTargetBytes && evnth("prometheus.addIfNonZero", 3, "arg", 1) == c.dataBytesPerLocation && evnth("prometheus.addIfNonZero", 3, "arg", 2)[0] == "p>t"
 //@ func (*proxyCollector).addTargetClient
 //@   props C15 C16 C18
+//@   params c targetProxyBytes proxyClientBytes accessKey clientInfo
 //@   requires validPC(c)
 //@   trace[C15,four-series] exactly 4 prometheus.addIfNonZero
 //@   trace[C15,target-to-proxy-per-key] holds evnth("prometheus.addIfNonZero", 0, "arg", 0) == targetProxyBytes && evnth("prometheus.addIfNonZero", 0, "arg", 1) == c.dataBytesPerKey && evnth("prometheus.addIfNonZero", 0, "arg", 2)[0] == "p<t" && evnth("prometheus.addIfNonZero", 0, "arg", 2)[1] == accessKey
@@ -117,19 +125,23 @@ package prometheus
 
 //@ func (*tcpServiceMetrics).openConnection
 //@   props C15 C18
+//@   params c clientInfo
 //@   requires validTCPSM(c)
 //@   trace[C15,opened-once] exactly 1 prometheus.Counter.Inc
 //@ func (*tcpServiceMetrics).closeConnection
 //@   props C15 C18
+//@   params c status duration accessKey clientInfo
 //@   requires validTCPSM(c)
 //@   trace[C15,closed-once] exactly 1 prometheus.Counter.Inc
 //@ func (*tcpServiceMetrics).addProbe
 //@   props C15 C18
+//@   params c listenerId status drainResult clientProxyBytes
 //@   requires validTCPSM(c)
 //@   trace[C15,probe-once] exactly 1 prometheus.Observer.Observe
 
 //@ func newTCPConnMetrics
 //@   props C15 C17 C18
+//@   params tcpServiceMetrics tunnelTimeMetrics clientConn clientInfo
 //@   requires validTCPSM(tcpServiceMetrics) && validTT(tunnelTimeMetrics) && clientConn != nil
 //@   ensures result != nil && result.accessKey == ""
 //@   trace[C15,opened-once] exactly 1 prometheus.(*tcpServiceMetrics).openConnection
@@ -138,6 +150,7 @@ package prometheus
 // Tunnel time for TCP starts only at authentication and stops at close iff authenticated.
 //@ func (*tcpConnMetrics).AddAuthenticated
 //@   props C15 C17 C18
+//@   params cm accessKey
 //@   requires validTCPCM(cm)
 //@   ensures cm.accessKey == accessKey
 //@   trace[C17,start-at-most-once] atmost 1 prometheus.(*tunnelTimeMetrics).startConnection
@@ -145,6 +158,7 @@ package prometheus
 
 //@ func (*tcpConnMetrics).AddClosed
 //@   props C15 C17 C18
+//@   params cm status data duration
 //@   requires validTCPCM(cm)
 //@   trace[C15,client-side-bytes] each prometheus.(*proxyCollector).addClientTarget satisfies $arg1 == data.ClientProxy && $arg2 == data.ProxyTarget && $arg3 == cm.accessKey
 //@   trace[C15,target-side-bytes] each prometheus.(*proxyCollector).addTargetClient satisfies $arg1 == data.TargetProxy && $arg2 == data.ProxyClient && $arg3 == cm.accessKey
@@ -158,11 +172,13 @@ package prometheus
 
 //@ func (*tcpConnMetrics).AddProbe
 //@   props C15 C18 C20
+//@   params cm status drainResult clientProxyBytes
 //@   requires validTCPCM(cm)
 //@   trace[C15,probe-once] exactly 1 prometheus.(*tcpServiceMetrics).addProbe
 
 //@ func newUDPConnMetrics
 //@   props C16 C17 C18
+//@   params udpServiceMetrics tunnelTimeMetrics accessKey clientAddr clientInfo
 //@   requires validUDPSM(udpServiceMetrics) && validTT(tunnelTimeMetrics) && clientAddr != nil
 //@   ensures result != nil
 //@   trace[C16,added-once] exactly 1 prometheus.Counter.Inc
@@ -170,12 +186,15 @@ package prometheus
 
 //@ func (*udpConnMetrics).AddPacketFromClient
 //@   props C16 C18
+//@   params cm status clientProxyBytes proxyTargetBytes
 //@   requires validUDPCM(cm)
 //@ func (*udpConnMetrics).AddPacketFromTarget
 //@   props C16 C18
+//@   params cm status targetProxyBytes proxyClientBytes
 //@   requires validUDPCM(cm)
 //@ func (*udpConnMetrics).RemoveNatEntry
 //@   props C16 C17 C18
+//@   params cm
 //@   requires validUDPCM(cm)
 //@   trace[C16,removed-once] exactly 1 prometheus.Counter.Inc
 //@   trace[C17,stop-at-most-once] atmost 1 prometheus.(*tunnelTimeMetrics).stopConnection
@@ -183,33 +202,42 @@ package prometheus
 
 //@ func (*udpServiceMetrics).addPacketFromClient
 //@   props C16 C18
+//@   params c status clientProxyBytes proxyTargetBytes accessKey clientInfo
 //@   requires validUDPSM(c)
 //@ func (*udpServiceMetrics).addPacketFromTarget
 //@   props C16 C18
+//@   params c status targetProxyBytes proxyClientBytes accessKey clientInfo
 //@   requires validUDPSM(c)
 
 //@ func (*serviceMetrics).getIPInfoFromAddr
 //@   props C18 C20
+//@   params m addr
 //@   requires m != nil
 //@ func (*serviceMetrics).AddOpenTCPConnection
 //@   props C15 C18 C20
+//@   params m clientConn
 //@   requires validSM(m) && clientConn != nil
 //@   ensures result != nil
 //@ func (*serviceMetrics).AddUDPNatEntry
 //@   props C16 C18 C20
+//@   params m clientAddr accessKey
 //@   requires validSM(m) && clientAddr != nil
 //@   ensures result != nil
 //@ func (*serviceMetrics).AddCipherSearch
 //@   props C18
+//@   params m proto accessKeyFound timeToCipher
 //@   requires validSM(m)
 //@ func (*tcpServiceMetrics).AddCipherSearch
 //@   props C18
+//@   params c accessKeyFound timeToCipher
 //@   requires validTCPSM(c)
 //@ func (*udpServiceMetrics).AddCipherSearch
 //@   props C18
+//@   params c accessKeyFound timeToCipher
 //@   requires validUDPSM(c)
 //@ func asnLabel
 //@   props C18
+//@   params asn
 
 // ---------------------------------------------------------------------------
 // Information flow (C20): client-address material never reaches a metric name or label.
